@@ -128,6 +128,22 @@ def live_scenario(rng):
     return sc
 
 
+def width_scenario(rng):
+    """one large UTxO paying a small output: the change lands within a few thousand lovelace of a CBOR integer-width boundary
+    (2^32, 65536, 256), so that the preliminary and the final change / fee differ in encoded width (the fee / change
+    fix-point of _add_change_and_fee is exercised on both sides of the boundary)"""
+    p = dict(rng.choice(bgen.PARAM_SETS[:2]))
+    pp = {**S.DEFAULT_PARAMS, **p}
+    out_coin = rng.choice([1_000_000, 2_000_000, 5_000_000])
+    fee_guess = pp["a"][0] * 300 // pp["a"][1] + pp["b"][0] // pp["b"][1]
+    boundary = rng.choice([2**32, 2**32, 2**32, 65536, 2**32 + 2_000_000])
+    coin = out_coin + fee_guess + boundary + rng.randint(-4000, 4000)
+    u = {"id": "u0", "txid": bgen.txid(rng), "ix": 0, "addr": "k0", "coin": max(coin, out_coin + 3_000_000)}
+    return {"params": p, "utxos": [u], "address_utxos": {},
+            "ops": [{"op": "add_input", "u": "u0"}, {"op": "add_output", "addr": rng.choice(["k1", "k0"]), "coin": out_coin}],
+            "build": {"change": "k0", "merge_change": rng.random() < 0.3, "selectors": [["largest"]]}}
+
+
 def corpus():
     u = lambda i, coin, **kw: {"id": f"u{i}", "txid": f"{i + 1:02x}" * 32, "ix": 0, "addr": "k0", "coin": coin, **kw}
     base = {"params": {}, "address_utxos": {}, "build": {"change": "k0", "selectors": [["largest"]]}}
@@ -163,7 +179,8 @@ def run(ctx):
     rng = ctx.rng
     n = ctx.budget(350, 12000)
     for i in range(n):
-        sc = live_scenario(rng) if i % 5 == 4 else bgen.gen_multiround(rng) if i % 5 == 2 else bgen.gen_value_scenario(rng)
+        sc = live_scenario(rng) if i % 5 == 4 else bgen.gen_multiround(rng) if i % 5 == 2 else \
+            width_scenario(rng) if i % 5 == 0 else bgen.gen_value_scenario(rng)
         check_scenario(ctx, sc)
 
 
